@@ -153,6 +153,12 @@ func vfRunConnScenario(cfg vfConnScenarioCfg) (events []map[string]interface{}, 
 			time.Sleep(delay)
 			atomic.AddInt64(&nodeSent, 1)
 			tr.Emit("n_send", "stream", f.Stream, "tok", tok, "nconn", nc.ID, "late", 0)
+			if fate == "split" {
+				// the response arrives in two pieces, the gap longer than the driver's read deadline
+				fr := vfEncodeFrame(f.Version, 0, f.Stream, vfOpResult, vfSetKeyspaceBody(tok))
+				nc.SendSplit(fr, vfHeaderLen(f.Version)+3, driverTimeout+driverTimeout/2)
+				return
+			}
 			nc.Reply(f, vfOpResult, vfSetKeyspaceBody(tok))
 		}()
 		return true
@@ -323,6 +329,8 @@ func vfRunConnScenario(cfg vfConnScenarioCfg) (events []map[string]interface{}, 
 					fate = "late"
 				case x < 25:
 					fate = "never"
+				case x < 45 && cfg.Kind == "midbody":
+					fate = "split"
 				}
 				cancelAfter := time.Duration(-1)
 				if x := crng.Intn(100); x < 4 {
@@ -411,7 +419,7 @@ func TestVfConnStress(t *testing.T) {
 	n := vfEnvInt("VF_NSCEN", 12)
 	callers := vfEnvInt("VF_CALLERS", 8)
 	per := vfEnvInt("VF_PERCALL", 12)
-	kinds := []string{"plain", "srvclose", "extclose", "writefail", "buildfail", "exhaust", "coalesce", "unsol"}
+	kinds := []string{"plain", "srvclose", "extclose", "writefail", "buildfail", "exhaust", "coalesce", "unsol", "midbody"}
 	rng := rand.New(rand.NewSource(vfSeed()))
 	var wg sync.WaitGroup
 	sem := make(chan struct{}, 8)
